@@ -235,7 +235,7 @@ func bucket(n int) string {
 func pdfOf(d Doc, r *hx.Rng) []byte {
 	pp := make([]pdfPage, len(d.Pages))
 	for i, p := range d.Pages {
-		pp[i] = pdfPage{W: p.W, H: p.H}
+		pp[i] = pdfPage{W: p.W, H: p.H, Broken: p.Broken}
 		for _, f := range p.F {
 			pp[i].Frags = append(pp[i].Frags, pdfFrag{Text: f.T, X: f.X, Y: f.Y, FontSize: f.FS, UseTd: r != nil && r.Bool()})
 		}
@@ -773,7 +773,15 @@ func Run(c *hx.Ctx) {
 		"ExcludeHeaders/ExcludeFooters/ExcludeHeadersAndFooters in either order, each followed by a terminal operation (Lines, Text, Paragraphs, Blocks judged; Fragments, PageCount, IsCharacterLevel, IsMultiColumn, Analyze, Document, " +
 		"ReadingOrder, Headings, Lists, ToMarkdown only making history): unfiltered reference first then exclusion, exclusion first then the reference, a non-extracting call first, chains of derivations, one excluding extractor used " +
 		"repeatedly, free mixes; every judged answer is held against the written document and the request alone (unfiltered: everything written; excluded: sublist, body band, unrepeated marginal text, no-repetition identity, liveness on every requested page, detection on all pages). " +
-		"Non-trivial = at least one fragment was removed (histories: a judged request with exclusion ran)."
+		"Extractor-level model (extract.go): rendered documents in which up to two pages (rarely all but two, or all) cannot be read (FlateDecode over plain data, unknown filter, /Contents an integer, " +
+		"a content stream ending inside a string) serve single requests Open(f)/FromReader(r).c1…cn.T() with chains of 0-5 calls (Pages incl. Pages(), duplicates, out-of-range pages, PageRange incl. inverted, " +
+		"ExcludeHeaders/ExcludeFooters/ExcludeHeadersAndFooters, JoinParagraphs/ByColumn/PreserveLayout) and T in Lines, Paragraphs, Blocks, ReadingOrder, Fragments, Document (Number, FragmentCount per page), Analyze (FragmentCount), " +
+		"Text() (the assemblers' outputs on the unfiltered and filtered fragments supplied to the model), and a script of 3-7 such requests on one source; every answer is also computed by the model " +
+		"(c11.x, c11.xtext, c11.xh) and held against filtering the requested pages with the regions detected on all readable pages. layout.AnalyzeWithHeaderFooterFiltering(pages, i) on every sixth short direct document (c11.awhf). " +
+		"DOCX/ODT/PPTX (office.go): element lists of 1-9 body elements (paragraphs with a unique token, paragraphs repeating a line of a header/footer part exactly / padded / in another case / extended, blank paragraphs, tables whose cells repeat such lines), " +
+		"0-2 header and footer parts of 1-3 lines, the two flags independently; run through the ODT and DOCX readers built on the elements (TextWithOptions, MarkdownWithOptions), every fourth also as a written DOCX file through docx.Open and tabula.Open(f).Exclude…().Text(); " +
+		"0-4 slides of 0-5 text blocks in 12 placeholder types through the PPTX reader. " +
+		"Non-trivial = at least one fragment was removed (histories: a judged request with exclusion ran; office: a flag was set)."
 	for wi, d := range []Doc{witnessB20(), witnessEmbeddedNumber(), witnessCharLevel(), witnessCover(), witnessMixedSizes()} {
 		directCase(c, d, true)
 		script, kind := genScript(c.Rng.Fork(uint64(3_000_000+wi)), len(d.Pages))
@@ -792,6 +800,9 @@ func Run(c *hx.Ctx) {
 		// the same document again, as a caller who keeps using its own slices across several calls
 		script, kind := genScript(r.Fork(99), len(d.Pages))
 		seqCase(c, d, script, kind, true)
+		if i%6 == 0 && len(d.Pages) <= 8 && !floatAmbiguous(c, d) {
+			awhfOps(c, d)
+		}
 	}
 	np := c.N(250, 2500)
 	for i := 0; i < np; i++ {
@@ -836,6 +847,9 @@ func Run(c *hx.Ctx) {
 	}
 	longDocs(c)
 	histories(c)
+	extractorCases(c)
+	rootOps(c)
+	officeCases(c)
 	os.RemoveAll(filepath.Join(c.OutDir, "pdf"))
 }
 
@@ -882,6 +896,21 @@ func Replay(c *hx.Ctx, kase map[string]interface{}) {
 		if ci.Hist != nil {
 			histRun(c, ci.Doc, *ci.Hist, nil)
 		}
+	case "x":
+		if ci.X != nil {
+			xCaseRun(c, ci.Doc, *ci.X, nil, false)
+		}
+	case "office":
+		var k struct{ O oCase }
+		json.Unmarshal(b, &k)
+		officeCase(c, k.O, true)
+	case "pptx":
+		var k struct {
+			Slides   []pSlide
+			ExH, ExF bool
+		}
+		json.Unmarshal(b, &k)
+		pptxCase(c, k.Slides, k.ExH, k.ExF)
 	case "docx":
 		var k struct {
 			P        string
